@@ -412,6 +412,12 @@ func (s *SecureChannel) Receive(ctx context.Context) *MessageBody {
 
 			// todo(fs): not sure this is correct
 			if req, ok := msg.Request().(*ua.OpenSecureChannelRequest); ok {
+				if s.kind != server {
+					// only a server opens channels on request; on a client the handler would adopt the
+					// peer's security mode and has no channel instance to open
+					debug.Printf("uasc %d/%d: refusing %T sent to a client", s.c.ID(), reqID, req)
+					return &MessageBody{Err: ua.StatusBadRequestTypeInvalid}
+				}
 				err := s.handleOpenSecureChannelRequest(reqID, req)
 				if err != nil {
 					debug.Printf("uasc %d/%d: handling %T failed: %v", s.c.ID(), reqID, req, err)
